@@ -303,6 +303,16 @@ func libDirect(artefact, target []byte) (*Violation, libResult) {
 	return nil, lr
 }
 
+// firedKind reports whether a fault of this kind fired in the process.
+func firedKind(res ProcResult, kind string) bool {
+	for _, f := range res.Fired {
+		if f.Kind == kind {
+			return true
+		}
+	}
+	return false
+}
+
 func checkProc13(i int, p ProcSpec, res ProcResult) *Violation {
 	f := parseArgv(p.Argv)
 	wh := where14(p, Expect{})
@@ -329,7 +339,7 @@ func checkProc13(i int, p ProcSpec, res ProcResult) *Violation {
 		return viol13("status", wh, "`jd %s` exited with status %d; an error must be status 2", strings.Join(p.Argv, " "), res.Code)
 	}
 	if res.Code == 2 {
-		if len(res.Stderr) == 0 && len(res.Stdout) == 0 {
+		if len(res.Stderr) == 0 && len(res.Stdout) == 0 && !firedKind(res, simos.FStderrEIO) {
 			return viol13("silent-error", wh, "`jd %s` exited with status 2 and no message", strings.Join(p.Argv, " "))
 		}
 		if strings.Contains(string(res.Stderr), "goroutine ") || strings.Contains(string(res.Stderr), "panic:") {
@@ -755,7 +765,7 @@ func genCase13(c *Chooser) C13Case {
 	// or a fault anywhere in the consumer: a seeded step and any fault kind
 	// (one that does not apply to that step simply does not fire)
 	if len(consumer.Faults) == 0 && c.Chance(1, 6) {
-		kinds := []string{simos.FReadEACCES, simos.FReadENOENT, simos.FReadEIO, simos.FOpenWEACCES, simos.FOpenWENOENT, simos.FOpenWENOSPC, simos.FWriteENOSPC, simos.FWriteEIO, simos.FCloseEIO, simos.FKill}
+		kinds := []string{simos.FReadEACCES, simos.FReadENOENT, simos.FReadEIO, simos.FOpenWEACCES, simos.FOpenWENOENT, simos.FOpenWENOSPC, simos.FWriteENOSPC, simos.FWriteEIO, simos.FCloseEIO, simos.FKill, simos.FStdoutENOSPC, simos.FStdoutEIO, simos.FStderrEIO}
 		consumer.Faults = []simos.Fault{{Step: c.Int(8), Kind: kinds[c.Int(len(kinds))], Param: c.Int(40)}}
 	}
 	cs.Procs = append(cs.Procs, consumer)
